@@ -832,6 +832,7 @@ func (fr *Frame) enterLoop(li *loopInfo) (*State, string) {
 			c := c
 			t, bound := fr.tolerate(func() string { return fr.evalClause(c, fr.invEnv(li, st, nil), "loop invariant") })
 			if !bound {
+				vc.incomplete = append(vc.incomplete, "a loop invariant of the contract does not bind to the code and was not assumed")
 				continue
 			}
 			vc.assume(implies(atL, t))
@@ -1105,6 +1106,18 @@ func (fr *Frame) instr(b *ssa.BasicBlock, in ssa.Instruction, st *State, g strin
 	panic(unsupported(fmt.Sprintf("instruction %T", in)))
 }
 
+// isErrorSentinel: an exported package-level variable of type error in a package outside the
+// module whose name follows the sentinel convention (Err..., EOF, Skip...).
+func isErrorSentinel(pkgPath, name string, t types.Type) bool {
+	if strings.HasPrefix(pkgPath, modPath) {
+		return false
+	}
+	if _, ok := t.Underlying().(*types.Interface); !ok || t.String() != "error" {
+		return false
+	}
+	return strings.HasPrefix(name, "Err") || name == "EOF" || strings.HasPrefix(name, "Skip")
+}
+
 func isIntType(t types.Type) bool {
 	_, _, ok := intInfo(t)
 	return ok
@@ -1291,6 +1304,10 @@ func (fr *Frame) unop(st *State, g string, x *ssa.UnOp) *State {
 		fr.factGuard = g
 		fr.refFacts(n, x.Type(), st)
 		fr.factGuard = ""
+		if gl, ok := x.X.(*ssa.Global); ok && gl.Pkg != nil && isErrorSentinel(gl.Pkg.Pkg.Path(), gl.Name(), x.Type()) {
+			vc.assume(implies(g, fmt.Sprintf("(not (= (ityp %s) 0))", n)))
+			vc.trust("exported error sentinels of the standard library and of dependencies (io.EOF, io.ErrUnexpectedEOF, filepath.SkipDir, os.ErrNotExist, ...) are non-nil")
+		}
 		return st
 	case token.ARROW:
 		// channel receive: unconstrained value
